@@ -19,9 +19,9 @@ PROP = {'gen': ['base64'],
                'a deep argument: view-tree / Text / Glyph / GlyphFrame / Face deserialisation is total (their models have no panic '
                'site except the embedded image visitor; the theorem adds that recursion is bounded by the nesting depth); what '
                'happens inside put_fmt, Face::overlay, Glyph::new, Path / Scene parsing rests on the run. Last clause: every accepted '
-               'document has a view tree of the C10 model (same deserialiser, C10 constructors; C19_view_tree_covers_partial: except '
-               'documents containing an image_ascii view, which C10 does not model) and that tree lays out under every valid '
-               'constraint and renders without panic or InvalidLayout (C10_total). That the mapping builds the right tree is by '
+               'document has a view tree of the C10 model (same deserialiser, C10 constructors incl. VImageAscii and VRef; '
+               'C19_view_tree_covers) and that tree lays out under every valid '
+               'constraint and renders without panic or InvalidLayout (C10_total, used only through its Props-level statement). That the mapping builds the right tree is by '
                'reading the code; the run lays out and renders every accepted view on the implementation (two contexts, 11 '
                'constraints; Err counts as failure). "Rendered" means View::render into a surface: rasterisation of glyphs happens '
                'later in the terminal renderer and is only probed (tagged, not judged).',
